@@ -28,8 +28,8 @@ theorem sound_core : Gen.S5B3E.sem.soundCoreB = true := by decide +kernel
 
 /-- C01 for this logic: a closed tableau reached by any legal derivation has no countermodel. -/
 theorem c01_valid_sound (arg : Argument) (t : Tableau)
-    (hd : Deriv Gen.S5B3E.sem.soundPart.noQuantPart (trunk Gen.S5B3E.sem arg) t) (hclosed : t.allClosed = true)
+    (hd : Deriv Gen.S5B3E.sem.soundPart (trunk Gen.S5B3E.sem arg) t) (hclosed : t.allClosed = true)
     (M : Struct) (hM : M.Interp Gen.S5B3E.sem) (e : Env M.D) (w0 : M.W) : ¬ Countermodel Gen.S5B3E.sem M e w0 arg :=
-  Props.C01.C01_valid_sound_partial Gen.S5B3E.sem sound_core arg t hd hclosed M hM e w0
+  Props.C01.C01_valid_sound Gen.S5B3E.sem sound_core arg t hd hclosed M hM e w0
 
 end Ptx.Gen.Obl.S5B3E
